@@ -91,3 +91,27 @@ Example C07_twin_nonvacuous :
   twin_ok POSTGRESQL [(L "zqn1", MName (L "we""ird")); (L "zqn2", MName (L "select"))]
      (L "SELECT ""zqn2"" ""zqn1"" FROM ""zqn1""") (L "SELECT ""select"" ""we""""ird"" FROM ""we""""ird""") = Some true.
 Proof. vm_compute. reflexivity. Qed.
+
+(* DDL: every table, column, period and constraint-column name of a CREATE TABLE statement is written through the one quoting function
+   (fquote with the class's quote character) - for ALL names, all six classes; by C07_ident each of them reads back as one identifier *)
+Definition qd (b : bcls) (n : str) : str := fquote (quote_char (ctx_of b)) n.
+Theorem C07_create_table_shape : forall b tn c1 c2 pf t0 ty,
+  render (ctx_of b) None
+    (TCreate (SomeT (TTable (tref_plain tn) NoT NoT)) false false true false
+       (KCons c1 (Some (t0 :: ty)) (Some false) NoT (KCons c2 None None NoT KNil)) [(pf, c1, c2)] [[c1; c2]] [c1] NoT)
+  = Ok (L "CREATE TABLE IF NOT EXISTS " ++ qd b tn ++ L " (" ++ qd b c1 ++ [32] ++ (t0 :: ty) ++ L " NOT NULL," ++ qd b c2 ++
+        L ",PERIOD FOR " ++ qd b pf ++ L " (" ++ qd b c1 ++ [44] ++ qd b c2 ++ L "),UNIQUE (" ++ qd b c1 ++ [44] ++ qd b c2 ++
+        L "),PRIMARY KEY (" ++ qd b c1 ++ L "))", None).
+Proof.
+  intros b tn c1 c2 pf t0 ty. unfold qd.
+  destruct b; lazy -[fquote app]; repeat (progress (cbn [app]; rewrite <- ?app_assoc; rewrite ?app_nil_r)); reflexivity.
+Qed.
+Print Assumptions C07_create_table_shape.
+
+Theorem C07_drop_table_shape : forall b tn sch,
+  render (ctx_of b) None (TDrop (SomeT (TTable (MkTRef true tn [sch] None 0) NoT NoT)) true)
+  = Ok (L "DROP TABLE IF EXISTS " ++ qd b sch ++ [46] ++ qd b tn, None).
+Proof.
+  intros b tn sch. unfold qd.
+  destruct b; lazy -[fquote app]; repeat (progress (cbn [app]; rewrite <- ?app_assoc; rewrite ?app_nil_r)); reflexivity.
+Qed.
